@@ -158,7 +158,7 @@ STD_VARIANT_INDEX = {"std::option::Option": {"None": 0, "Some": 1}, "std::result
                      "std::ops::ControlFlow": {"Continue": 0, "Break": 1}}
 
 
-def hyp_reach(b, starts, call_value, stop=()):
+def hyp_reach(b, starts, call_value, stop=(), tyconst=None):
     """blocks reachable from `starts` under a hypothesis about the results of some calls: `call_value(bi, term)` gives the
     integer (bool) a call returns under the hypothesis, or None when the hypothesis says nothing. Plain locals holding known
     constants are tracked per path through copies, `!`, and constant assignments; a switch on a known local follows one edge.
@@ -192,6 +192,21 @@ def hyp_reach(b, starts, call_value, stop=()):
                     v = env[o["pl"]["l"]]
             elif rv["r"] == "un" and rv["op"] == "Not" and op_local(rv["a"]) in env and not rv["a"]["pl"]["p"] and env[op_local(rv["a"])] in (0, 1):
                 v = 1 - env[op_local(rv["a"])]
+            elif rv["r"] == "bin" and rv["op"] in ("Eq", "Ne", "Lt", "Le", "Gt", "Ge"):
+                # comparison of known integers (constants, locals known on this path, hypothetical const generics)
+                def _val(o):
+                    if o.get("k") == "const":
+                        if "int" in o:
+                            return o["int"]
+                        if tyconst and o.get("tyconst") in tyconst:
+                            return tyconst[o["tyconst"]]
+                        return None
+                    if o.get("k") in ("copy", "move") and not o["pl"]["p"] and isinstance(env.get(o["pl"]["l"]), int):
+                        return env[o["pl"]["l"]]
+                    return None
+                x, y = _val(rv["a"]), _val(rv["b"])
+                if x is not None and y is not None:
+                    v = int({"Eq": x == y, "Ne": x != y, "Lt": x < y, "Le": x <= y, "Gt": x > y, "Ge": x >= y}[rv["op"]])
             elif rv["r"] == "agg" and rv.get("ak") == "adt" and rv.get("adt") in STD_VARIANT_INDEX and rv.get("variant") in STD_VARIANT_INDEX[rv["adt"]]:
                 # a freshly built Option / Result: its discriminant is known on this path
                 v = ("variant", STD_VARIANT_INDEX[rv["adt"]][rv["variant"]])
